@@ -6,6 +6,7 @@
 import CSD.Model.Codes
 import CSD.Model.RePair
 import CSD.Model.RG
+import CSD.Model.RPDAC
 import CSD.Driver.Util
 
 namespace CSD.Driver
@@ -83,6 +84,37 @@ def checkRePair (maxchar input t bits rules seq : String) : String :=
   if !(inp.all fun x => x < terminals) then s!"V terminal-outside-alphabet maxchar={maxchar}" else
   "V ok"
 
+/-- The RPDAC object exported by the real code (grammar, one symbol sequence per string, its own
+answers) against the hypotheses of `CSD.RPDAC.locate_represents` (`Represents`: well-formed rules,
+valid symbols, the i-th sequence expands to the i-th string) — and the model of the query layer run
+on those very structures against the real answers and the specification. -/
+def checkRpdac (strsHex queriesHex t rules seqs loc abs : String) : String :=
+  let S : List Str := (splitComma strsHex).map unhex
+  let Q : List Str := (splitComma queriesHex).map unhex
+  let terminals := t.toNat?.getD 0
+  let rl := (splitComma rules).map fun e =>
+    match e.splitOn ":" with
+    | [a, b] => (a.toNat?.getD 0, b.toNat?.getD 0)
+    | _ => (0, 0)
+  let sq : List (List Nat) := if seqs == "-" then [] else (seqs.splitOn ";").map fun x => (x.splitOn ",").map fun y => y.toNat?.getD 0
+  let g : RePair.Grammar := { terminals := terminals, rules := rl }
+  let d : RPDAC.D := { g := g, seqs := sq }
+  let nat (s : Str) : List Nat := s.map (·.toNat)
+  if !g.wf then "V rule-refers-forward" else
+  if sq.length != S.length then s!"V sequences={sq.length}-strings={S.length}" else
+  if !(sq.all fun syms => syms.all fun x => x < terminals + rl.length) then "V sequence-symbol-out-of-range" else
+  if !((sq.zip S).all fun (syms, s) => g.expand syms == nat s) then "V a-sequence-does-not-expand-to-its-string" else
+  -- the model of locate on the real structures
+  let implLoc := (splitComma loc).map fun x => x.toNat?.getD 0
+  let implAbs := (splitComma abs).map fun x => x.toNat?.getD 0
+  let modLoc := S.map fun s => RPDAC.locate d (nat s)
+  let modAbs := Q.map fun q => RPDAC.locate d (nat q)
+  if modLoc != implLoc.map some then "V model-locate-differs-from-code-on-a-member" else
+  if modAbs != implAbs.map some then "V model-locate-differs-from-code-on-a-query" else
+  if modLoc != (S.map fun s => some (Spec.locate S s)) then "V model-locate-differs-from-spec" else
+  if modAbs != (Q.map fun q => some (Spec.locate S q)) then "V model-locate-differs-from-spec-on-a-query" else
+  "V ok"
+
 /-- bit `k` of the hex-encoded byte string -/
 def bitsOfHex (h : String) (n : Nat) : List Bool :=
   let bytes := unhex h
@@ -124,6 +156,8 @@ def runCheckStreams (c : Case) (emit : Nat → String → IO Unit) : IO Unit := 
     match op with
     | ["ctchk", kind, tbl] => emit k (checkCodeTable kind tbl)
     | ["rpchk", maxchar, input, t, bits, rules, seq] => emit k (checkRePair maxchar input t bits rules seq)
+    | ["rdchk", strs, qs, t, rules, seqs, loc, abs] => emit k (checkRpdac strs qs t rules seqs loc abs)
+    | ["rdskip"] => emit k "V ok"
     | "bv" :: impl :: par :: n :: h :: _ => emit k (bvLine impl (par.toNat?.getD 0) (n.toNat?.getD 0) h)
     | "wt" :: _ :: syms :: _ => emit k (wtLine syms)
     | _ => emit k "V unparsable-export"
